@@ -38,7 +38,14 @@ impl Discriminants {
         for variant in variants {
             let this_discriminant = variant.discriminant.clone().map_or_else(
                 || quote! { #next_discriminant_if_not_specified },
-                |(_, e)| quote! { #e },
+                |(_, e)| match e {
+                    syn::Expr::Lit(_)
+                    | syn::Expr::Path(_)
+                    | syn::Expr::Paren(_)
+                    | syn::Expr::Unary(_) => quote! { #e },
+                    // the expression becomes an operand (`… + 1`, `variant_tag == …`): keep it whole
+                    _ => quote! { (#e) },
+                },
             );
             let this_value = match &variant.discriminant {
                 Some((_, e)) => literal_value(e),
